@@ -567,7 +567,7 @@ func (sfr *SegmentFileReader) ReadDictEnc(buf []byte, blockNum uint16) error {
 		switch buf[idx] {
 		case sutils.VALTYPE_ENC_SMALL_STRING[0]:
 			//  3 => 1 for 'T' and 2 for 'L' of string
-			idx += uint32(3 + utils.BytesToUint16LittleEndian(buf[idx+1:idx+3]))
+			idx += 3 + uint32(utils.BytesToUint16LittleEndian(buf[idx+1:idx+3]))
 		case sutils.VALTYPE_ENC_BOOL[0]:
 			idx += 2 // 1 for T and 1 for Boolean value
 		case sutils.VALTYPE_ENC_INT64[0], sutils.VALTYPE_ENC_FLOAT64[0]:
